@@ -86,7 +86,7 @@ func init() {
 		// --- LeadingZeroes
 		if fn := x.Func(fb, "", "LeadingZeroes"); fn != nil {
 			b := fn.Body.List
-			if x.wantStmts("LeadingZeroes", b, "n := len(data)", "*", "var i int", "*", "*", "return i") {
+			if x.wantStmts("LeadingZeroes", b, "n := len(data)", "*", "i := 0", "*", "*", "return i") {
 				if e := DefineOf(b[1], "m"); e != nil {
 					fs.set("lzChunkEnd", x.IntExpr(e, N, false), "`LeadingZeroes`: "+doc(b[1]))
 				} else {
@@ -252,7 +252,7 @@ func init() {
 			}
 		}
 		if fn := x.Func(fm, "", "parseStr"); fn != nil {
-			x.wantStmts("parseStr", fn.Body.List, "var i int", "for i < len(s) && !isDigit(s[i]) { i++ }", "return s[:i], s[i:]")
+			x.wantStmts("parseStr", fn.Body.List, "i := 0", "for i < len(s) && !isDigit(s[i]) { i++ }", "return s[:i], s[i:]")
 		}
 		if fn := x.Func(fm, "", "CompareNatural"); fn != nil {
 			b := fn.Body.List
@@ -260,7 +260,7 @@ func init() {
 				l, ok := b[0].(*ast.ForStmt)
 				if !ok || x.Src(l.Cond) != `a != "" && b != ""` || l.Init != nil || l.Post != nil {
 					x.fail("CompareNatural: loop is not `for a != \"\" && b != \"\"`")
-				} else if lb := l.Body.List; x.wantStmts("CompareNatural (loop)", lb,
+				} else if lb := mergeElseIf(l.Body.List); x.wantStmts("CompareNatural (loop)", lb,
 					"va, ra, aok := parseInt(a)", "vb, rb, bok := parseInt(b)", "*",
 					"pa, ra := parseStr(a)", "pb, rb := parseStr(b)", "if c := cmp.Compare(pa, pb); c != 0 { return c }", "a, b = ra, rb") {
 					g := lb[2].(*ast.IfStmt)
